@@ -350,7 +350,11 @@ def given_exception_matches(err, exc) -> bool:
         return False
     if not isclass(err):
         err = type(err)
-    return issubclass(err, exc)
+    if isinstance(exc, tuple):
+        return any(given_exception_matches(err, element) for element in exc)
+    # Like CPython, look at the MRO only: ``issubclass`` would also honour
+    # ``__subclasscheck__`` and ABC registrations, an ``except`` clause does not.
+    return isclass(exc) and any(cls is exc for cls in err.__mro__)
 
 
 def string_distance(string1: str, string2: str) -> float:
